@@ -135,6 +135,30 @@ pub fn family(seed: u64) -> Vec<Art> {
         kvs: kv(&[(&[0x00], 1), (&[0x00, 0xff], 2), (&[0x80], 300), (&[0xfe, 0xfd], 4), (&[0xff], 5), (&[0xff, 0xff], 6)]),
         group: "special",
     });
+    // one-trans-next nodes whose input byte is outside the common-input table
+    out.push(Art {
+        name: "uncommon_chain".into(),
+        is_map: true,
+        kvs: kv(&[(&[0x20, 0x80, 0x81, 0x82], 9), (&[0xfe, 0xfd, 0xfc, 0xfb], 4)]),
+        group: "special",
+    });
+    // zero values on keys sharing a prefix that carries a non-zero output
+    out.push(Art {
+        name: "zero_after_prefix".into(),
+        is_map: true,
+        kvs: kv(&[(b"ab", 5), (b"ac", 0), (b"b", 0), (b"ba", 7), (b"bb", 0), (b"bc", 1 << 40)]),
+        group: "special",
+    });
+    // two equivalent nodes with all 256 transitions
+    {
+        let mut kvs2: Vec<(Vec<u8>, u64)> = vec![];
+        for a in [b'a', b'b'].iter() {
+            for i in 0..256usize {
+                kvs2.push((vec![*a, i as u8], 0));
+            }
+        }
+        out.push(Art { name: "fan256x2_set".into(), is_map: false, kvs: kvs2, group: "fan" });
+    }
     for &n in &[31usize, 32, 33, 34, 255, 256] {
         let keys: Vec<Vec<u8>> = (0..n).map(|i| vec![(if n == 256 { i } else { i + (i >= 100) as usize }) as u8]).collect();
         out.push(Art {
